@@ -367,6 +367,16 @@ class Gen:
                         top_setup.append(["recordprop", f"r_{on}_{pr}", on, pr])
         if f.get("p_require_setup") and t.chance(f["p_require_setup"], 8, "require.setup?"):
             top_setup.append(["require", self.table("guard")])
+        if f.get("p_occlusion") and t.chance(f["p_occlusion"], 8, "occlusion?"):
+            # scene generation that depends on the *other* objects of the candidate scene: a wall
+            # at a random place may hide a target from the first object of the top level
+            viewer = next((st[1] for st in top_setup if st[0] == "new"), None)
+            if viewer:
+                objpos["wall"] = ("Range(-10, 10)", 20)
+                objpos["targ"] = (0, 30)
+                top_setup.append(["new", "wall", None, [["width", 4], ["length", 0.5], ["height", 2]]])
+                top_setup.append(["new", "targ", None, [["requireVisible", False]]])
+                top_setup.append(["rawrequire", f"{viewer} can see targ"])
         prog = {
             "ftab": bool(f.get("ftab")),
             "has_behavior_override": self.has_behavior_override,
